@@ -14,7 +14,9 @@ RULE = ("(a) every schema-supported schema used as a defaulted field of an owner
         "namedtuple_as_dict, serialization_strategy) x {DRAFT_2020_12, OPEN_API_3_1} x all_refs x ref_prefix {None, '#/x', '#/x/'} x "
         "with_definitions: no exception, valid against the 2020-12 metaschema, every $ref starts with the prefix and names a collected "
         "definition, JSONSchema.from_dict(to_dict()).to_dict() is the identity; (b) BFS over all orders of JSONSchemaBuilder.build calls for 4 "
-        "types sharing nested classes: every result equals a fresh builder's, definitions accumulate to the union independent of order. "
+        "types sharing nested classes: every result equals a fresh builder's, definitions accumulate to the union independent of order; "
+        "(c) BFS over sequences of build_json_schema(T, context=shared, **overrides) on one user-supplied Context: every schema equals the one "
+        "built with a fresh equal Context and the user's Context keeps its dialect / all_refs / ref_prefix / plugins. "
         "Non-trivial: the owner configuration is not the default one, or a build after at least one earlier build.")
 ASSUMPTIONS = ["metaschema check = jsonschema.Draft202012Validator.check_schema", "self-referencing dataclasses: one open finding"]
 UNIT_TIMEOUT = 900
@@ -41,7 +43,8 @@ CONFIGS = {
 
 def bounds(tier):
     return dict(tier=tier, schemas=len(_schemas(tier)), owner_configs=list(CONFIGS), dialects=2, all_refs=2, ref_prefixes=[None, "#/x", "#/x/"],
-                with_definitions=[True, False], builder_history_depth=5,
+                with_definitions=[True, False], builder_history_depth=5, shared_context_history_depth=3,
+                shared_contexts=list(CFam.CONTEXTS), per_call_overrides=list(CModel.OVERRIDES),
                 combinations="all 14 meaningful (dialect, all_refs, ref_prefix, with_definitions) in thorough; 6 covering every value of each in quick",
                 defaults_per_schema=2 if tier == "quick" else 4)
 
@@ -62,6 +65,8 @@ QUICK_COMBOS = {("DRAFT_2020_12", False, None, True), ("DRAFT_2020_12", True, "#
 def units(tier):
     out = [("total", d, c, tier) for d in _schemas(tier) for c in CONFIGS]
     out += [("hist", variant) for variant in ("plain", "mixin", "all_refs")]
+    # a user-supplied Context shared by a sequence of build_json_schema calls with per-call overrides
+    out += [("hist", "context:" + c) for c in CFam.CONTEXTS]
     return out
 
 
@@ -257,10 +262,94 @@ class HModel:
         return (tuple(sorted(set(f.built))), tuple(sorted(f.builder.context.definitions)))
 
 
+class CFam:
+    """One user-supplied Context shared by a sequence of build_json_schema(...) calls."""
+    CONTEXTS = {"empty": {}, "all_refs": {"all_refs": True}, "openapi": {"dialect": "OPEN_API_3_1"}, "prefix": {"ref_prefix": "#/p"}}
+
+    def __init__(self, variant):
+        from mashumaro.jsonschema import builder as jb
+        from mashumaro.jsonschema import dialects as jd
+        self.ctx = space.Ctx()
+        import datetime
+        self.ctx.ns["date"] = datetime.date
+        self.ctx.run("@dataclass\nclass In:\n    a: date\n    z: Optional[int] = None\n")
+        self.ctx.run("@dataclass\nclass A:\n    i: In\n    n: int = 1\n")
+        self.jd = jd
+        kw = dict(self.CONTEXTS[variant.split(":")[1]])
+        if "dialect" in kw:
+            kw["dialect"] = getattr(jd, kw["dialect"])
+        self.make = lambda: jb.Context(**kw)
+        self.context = self.make()
+        self.calls = []
+
+    def settings(self, c=None):
+        c = c or self.context
+        return (type(c.dialect).__name__ + ":" + str(getattr(c.dialect, "uri", "")), c.all_refs, c.ref_prefix, tuple(c.plugins))
+
+    def dispose(self):
+        self.ctx.close()
+
+
+class CModel:
+    OVERRIDES = {"plain": {}, "draft": {"dialect": "DRAFT_2020_12"}, "openapi": {"dialect": "OPEN_API_3_1"}, "all_refs": {"all_refs": True},
+                 "no_refs": {"all_refs": False}, "prefix": {"ref_prefix": "#/q/"}}
+
+    def __init__(self, variant):
+        self.variant = variant
+        self._exp = {}
+
+    def initial(self):
+        return CFam(self.variant)
+
+    def dispose(self, f):
+        f.dispose()
+
+    def enabled(self, h):
+        return [("call", t, o) for t in ("In", "A") for o in self.OVERRIDES]
+
+    def _call(self, f, op, context):
+        from mashumaro.jsonschema import build_json_schema
+        kw = dict(self.OVERRIDES[op[2]])
+        if "dialect" in kw:
+            kw["dialect"] = getattr(f.jd, kw["dialect"])
+        out = build_json_schema(f.ctx.ns[op[1]], context=context, **kw).to_dict()
+        out.pop("$defs", None)
+        out.pop("definitions", None)
+        return json.dumps(out, sort_keys=True)
+
+    def apply(self, f, op):
+        before = f.settings()
+        try:
+            out = self._call(f, op, f.context)
+        except RecursionError:
+            return ("exc", "RecursionError")
+        except Exception as e:   # noqa: BLE001
+            return ("exc", type(e).__name__, str(e)[:100])
+        f.calls.append(op)
+        if f.settings() != before:
+            return ("exc", "user-Context-altered", f"{before} -> {f.settings()}")
+        return ("ok", out)
+
+    def expected(self, h, op):
+        if op not in self._exp:
+            f = self.initial()
+            try:
+                self._exp[op] = ("ok", self._call(f, op, f.make()))
+            except Exception as e:   # noqa: BLE001
+                self._exp[op] = ("exc", type(e).__name__, str(e)[:100])
+            finally:
+                f.dispose()
+        return self._exp[op]
+
+    def canon(self, f):
+        return (f.settings(), tuple(sorted(f.context.definitions)), tuple(sorted(json.dumps(v.to_dict(), sort_keys=True)
+                                                                                  for v in f.context.definitions.values())))
+
+
 def run_hist(unit, only=None):
     _, variant = unit
     res = core.UnitResult()
-    model = HModel(variant)
+    model = CModel(variant) if variant.startswith("context:") else HModel(variant)
     if only is not None:
         h, op = only
         f = hist.rebuild(model, h)
@@ -273,7 +362,7 @@ def run_hist(unit, only=None):
             res.violation("replay", "builder-history-dependent", got[1] if got[0] == "exc" else "value", dict(unit=unit, history=h, op=op),
                           f"got={got!r:.300} expected={exp!r:.300}")
         return res
-    r = hist.bfs(model, 5)
+    r = hist.bfs(model, 3 if variant.startswith("context:") else 5)
     res.cases = res.transitions = r.transitions
     res.states = r.states
     res.capped = r.capped
